@@ -144,3 +144,29 @@ def loop_stop_nodes(ctx, f):
                     astq.norm_text(c.func.value).split('.')[-1] in ('loop', 'io_loop', 'ioloop'):
                 out.append((x, False))
     return out
+
+
+COROUTINE_FUTURES = ('tornado.concurrent.Future', 'tornado.gen.Future', 'asyncio.Future',
+                     'asyncio.futures.Future', 'tornado.concurrent.asyncio.Future')
+
+
+def coroutine_future_class(f, x):
+    """`x` (class expression of an isinstance test in function f) names the class of the
+    futures a gen.coroutine returns, resolved through the module's imports."""
+    elts = x.elts if isinstance(x, ast.Tuple) else [x]
+    for y in elts:
+        d = dotted(y) or ''
+        head, _, rest = d.partition('.')
+        full = f.module.imports.get(head)
+        full = (full + ('.' + rest if rest else '')) if full else d
+        if full in COROUTINE_FUTURES:
+            return True
+    return False
+
+
+def future_tests(ctx, f):
+    """[(test node, isinstance call)] - tests of a value against a Future class in f"""
+    from sa import astq
+    return [(n, e) for n in ctx.live_nodes(f) if n.kind == 'test' for e in ast.walk(n.ast)
+            if isinstance(e, ast.Call) and dotted(e.func) == 'isinstance' and len(e.args) == 2
+            and 'Future' in astq.norm_text(e.args[1])]
